@@ -129,7 +129,24 @@ _RTR.append(('skipEofChecked', PDU, r'pub async fn skip_payload<([\s\S]*?)\n    
              lambda m: bool(re.search(r'if read == 0', m.group(1))), ['C07']))
 
 
+SERVER = 'src/rtr/server.rs'
+
+
+def _cancel_safe(m):
+    body = m.group(1)
+    # original: the header is read by a `Header::read` future created inside recv and raced against notify
+    if re.search(r'let header = pdu::Header::read\(&mut self\.sock\);', body):
+        return False
+    # repaired: the partial header is kept in the connection and filled by cancel-safe `read` calls
+    if re.search(r'self\.header_len|header_len', body) and not re.search(r'pdu::Header::read\(', body):
+        return True
+    raise ValueError('recv shape not recognised')
+
+
 EXTRA = _RTR + [
+    # ---- C08
+    ('rtrMaxVersion', SERVER, r'pub const MAX_VERSION: u8 = (\d+);', 'nat', ['C08', 'C06']),
+    ('rtrRecvCancelSafe', SERVER, r'async fn recv\(&mut self\) -> Result<Option<Query>, io::Error> \{([\s\S]*?)if let Err\(err\) = self\.check_version\(header\)', _cancel_safe, ['C08']),
     # ---- C15
     ('slurmDropAllKinds', SLURM, r'impl ValidationOutputFilters \{[\s\S]*?pub fn drop_payload\(&self, payload: &rtr::Payload\) -> bool \{([\s\S]*?)\n    \}', _drop_all, ['C15']),
     ('aspaMaxCount', PDU, r'impl ProviderAsns \{[\s\S]*?pub const MAX_COUNT: usize = (\d+);', 'nat', ['C15', 'C07', 'C06']),
